@@ -7,6 +7,7 @@ from mc.runner import Result
 ID = "C09"
 TITLE = "AHB expressions split into their parts; the first fulfilled part decides"
 ENGINE = "e1-bounded-enumeration"
+ISOLATE_PARTITIONS = True  # hidden state (module-level objects) must not leak between partitions
 
 MODAL_SPELLINGS = ["M", "m", "Muss", "muss", "MUSS", "mUsS", "S", "s", "Soll", "soll", "SOLL", "sOlL", "K", "k", "Kann", "kann",
                    "KANN", "kAnN"]
@@ -106,12 +107,12 @@ def plan(tier, seed):
     b = BOUNDS[tier]
     items = []
     for c in range(b["cers"]):
-        for p in range(24):
-            items.append({"fam": "A", "cer": c, "part": p, "parts": 24})
-        for p in range(48):
-            items.append({"fam": "B", "cer": c, "part": p, "parts": 48, "ws_pairs": b["ws_pairs"]})
         for p in range(8):
-            items.append({"fam": "C", "cer": c, "part": p, "parts": 8})
+            items.append({"fam": "A", "cer": c, "part": p, "parts": 8})
+        for p in range(16):
+            items.append({"fam": "B", "cer": c, "part": p, "parts": 16, "ws_pairs": b["ws_pairs"]})
+        for p in range(4):
+            items.append({"fam": "C", "cer": c, "part": p, "parts": 4})
         for p in range(len(HISTORY_MENU)):
             items.append({"fam": "H", "cer": c, "first": p})
     return items
